@@ -137,6 +137,10 @@ class PathRun:
         method = r.choice(["GET", "HEAD", "PUT", "PUT", "POST", "DELETE", "DELETE", "MKCOL", "MKCOL", "MKCALENDAR", "MKCALENDAR", "PROPFIND", "PROPFIND", "PROPPATCH", "REPORT", "REPORT", "OPTIONS"])
         path = evil_path(r, self.cfg["prefix"])
         op = {"op": "req", "method": method, "path": path, "salt": r.getrandbits(32)}
+        if r.random() < 0.07:
+            # no dot segments at all: the URL path simply is the absolute host path of something that exists
+            op["host_path"] = r.choice(["outside/col", "outside/col/", "outside", "root-old", "root-old/keep.ics", "outside/col/deeper/new"])
+            op["path"] = "/<host>/" + op["host_path"]
         if method in ("PUT", "POST"):
             op["ctype"] = r.choice(["text/calendar", "text/calendar", "application/octet-stream"])
             uid = r.choice(["evil-uid", "../../../../outside/escaped", "../../../../../outside/col/m", "/etc/evil", "..", "a/../../../../outside/x", "evil-uid-2"])
@@ -233,6 +237,9 @@ class PathRun:
         w.reseed(op.get("salt", 0))
         method = op["method"]
         self.count("method." + method)
+        if op.get("host_path") is not None:
+            # the request path spells an absolute path of the host (of a decoy next to the root)
+            op = dict(op, path=urllib.parse.quote(os.path.join(self.arena.path, op["host_path"])))
         target = self.cfg["prefix"].rstrip("/") + op["path"]
         hdrs = []
         if op.get("ctype"):
